@@ -116,6 +116,21 @@ fn resolve_cond(seed: &CondSeed, left: &[String], right: &[String]) -> E {
     let l = || E::Col(left[pick(seed.a, left.len())].clone());
     let r = || E::Col(right[pick(seed.b, right.len())].clone());
     let l2 = || E::Col(left[pick(seed.b, left.len())].clone());
+    // kinds from 225 up: conditions whose value is not 0 / 1 but any integer,
+    // string or null (a bit test, a sum, a product, the bare cell, its
+    // negation): what counts is their truth value
+    if seed.kind >= 225 {
+        return match (seed.kind - 225) % 8 {
+            0 => E::bin(Bin::BitAnd, l(), r()),
+            1 => E::bin(Bin::Add, l(), r()),
+            2 => l(),
+            3 => r(),
+            4 => E::bin(Bin::Mul, l(), lit(seed.lit)),
+            5 => E::bin(Bin::BitOr, l(), lit(seed.lit)),
+            6 => E::un(crate::refeval::Un::Neg, r()),
+            _ => E::bin(Bin::Sub, l(), r()),
+        };
+    }
     match seed.kind % 9 {
         0 | 1 | 2 => E::bin(Bin::Eq, l(), r()),
         3 => E::bin(Bin::Ne, l(), r()),
@@ -424,7 +439,7 @@ fn case_strategy(depth: u32) -> impl Strategy<Value = Case> {
 pub fn run(ctx: &Ctx) -> Report {
     let mut rep = Report::new(
         "exploration",
-        "select trees up to depth 3 (4 in thorough) over three base tables (one with a dotted name and a dotted column name), filters, projections, inner and left joins including joins of joins, joins of filtered and of projected sub-selects and self-joins, ON conditions over both sides' columns (late-bound to the documented table.column names), unknown table / column names (also real names with the case of one letter flipped) injected in projection, filter and ON; identity projections (every column in order); projections of up to four columns drawn with replacement (repeats, in and out of table order); table contents of 0..4 rows with nulls in join columns; one case in four stores its strings under Windows-1252 (two different unrepresentable texts become the same '?' in two pool entries) and reopens before querying, the reference then works on the base tables as read back. Oracle: reference executor (naming rule, nested-loop order, null padding and nullability in left joins, filter, projection): column names, row order, values and nullability must match; unknown names must be reported as errors (also when a side is empty); no panic. Queries that refer to a duplicated column name are skipped (resolution undocumented). Non-trivial = a join with at least one matched and one unmatched pair; distinct by (query, data).",
+        "select trees up to depth 3 (4 in thorough) over three base tables (one with a dotted name and a dotted column name), filters, projections, inner and left joins including joins of joins, ON clauses and filters whose value is no 0 / 1 but any integer, string or null (bit test, sum, difference, product, the bare cell, its negation: one condition in eight), joins of filtered and of projected sub-selects and self-joins, ON conditions over both sides' columns (late-bound to the documented table.column names), unknown table / column names (also real names with the case of one letter flipped) injected in projection, filter and ON; identity projections (every column in order); projections of up to four columns drawn with replacement (repeats, in and out of table order); table contents of 0..4 rows with nulls in join columns; one case in four stores its strings under Windows-1252 (two different unrepresentable texts become the same '?' in two pool entries) and reopens before querying, the reference then works on the base tables as read back. Oracle: reference executor (naming rule, nested-loop order, null padding and nullability in left joins, filter, projection): column names, row order, values and nullability must match; unknown names must be reported as errors (also when a side is empty); no panic. Queries that refer to a duplicated column name are skipped (resolution undocumented). Non-trivial = a join with at least one matched and one unmatched pair; distinct by (query, data).",
     );
     let mut st = Stats::new();
     let depth = ctx.tier.pick(3, 4);
